@@ -289,6 +289,19 @@ func init() {
 	})
 }
 
+func init() {
+	props = append(props, prop{
+		ID: "C20", Title: "concurrent API use is free of data races", Level: "exploration",
+		LevelText:  "The in-process node is built with -race. Groups of concurrently running operation streams are generated from the seed: posts (also two posters on one session, with a non-zero cool-off so that throttling does its bookkeeping), long-poll reads with reconnects, session creation/deletion, status and config pages, the expiry sweep, raft snapshots, user-triggered raft restores, and direct calls of the exported methods of IRCServer, OutputStream and LevelDBStore that the running system uses from those roles. The Go race detector is the oracle; each report is keyed by the sorted pair of the top robustirc frames of the two accesses.",
+		LevelNote:  "Interleavings are the Go scheduler's (GOMAXPROCS 2/4/16, injected Gosched), sampled not enumerated. GLINE stays out of the concurrent stream (lock-order inversion with ThrottleUntil/ExpireSessions can deadlock: a liveness defect, not a race); while a restore runs nothing reads the output stream (Restore closes it under readers, which is a crash, not a race). Replays re-run the shard seed (best effort).",
+		Technique:  "randomised concurrent stress generation with the Go race detector as oracle",
+		DesignRef:  "4/C20",
+		Rule:       "case = group of 3-10 generated operation streams (3-14 operations each) against a fresh node; non-trivial = a read-side stream (long-poll, status page, direct call) ran while a POST was being applied; distinct = hash of the group; labels count groups per stream kind",
+		Assumptions: []string{"only combinations the running system really executes concurrently are generated"},
+		Units:      []unit{{Name: "race", Pkg: ".", Harness: "main", Mode: "race", Run: "^TestVerifC20$", Quick: 480, Thorough: 9600, QuickTimeoutS: 900, ThoroughTimeoutS: 3400}},
+	})
+}
+
 // notApplicable lists properties that are not claimed (yet), with the reason.
 var notApplicable = map[string]string{}
 
